@@ -666,7 +666,7 @@ fn rtfile(path: &str) {
                 }
                 _ => "REJECTED".to_string(),
             };
-            println!("POLRT {} {} {}", ty, verdict, line);
+            println!("POLRT\t{}\t{}\t{}", ty, verdict, line);
         }
     }
 }
@@ -684,6 +684,78 @@ pub fn run(args: &[String]) {
     // deep texts / values: run on a thread with a large stack
     let h = std::thread::Builder::new().stack_size(512 << 20).spawn(move || go(seed, &tier)).expect("spawn");
     let _ = h.join();
+}
+
+/// Why the printed form of a VALUE cannot be parsed back (structural reasons read off the value itself).
+fn bad_str(s: &str) -> bool { s.chars().any(|c| "(){},#".contains(c)) }
+fn creasons(p: &C, out: &mut std::collections::BTreeSet<&'static str>) {
+    match p {
+        C::Key(k) => {
+            if bad_str(k) {
+                out.insert("structural-key");
+            }
+        }
+        C::Sha256(h) | C::Hash256(h) | C::Ripemd160(h) | C::Hash160(h) => {
+            if bad_str(h) {
+                out.insert("structural-key");
+            }
+        }
+        C::And(subs) => {
+            if subs.is_empty() {
+                out.insert("empty-and-or");
+            } else if subs.len() != 2 {
+                out.insert("concrete-nary");
+            }
+            for x in subs {
+                creasons(x, out);
+            }
+        }
+        C::Or(subs) => {
+            if subs.is_empty() {
+                out.insert("empty-and-or");
+            } else if subs.len() != 2 {
+                out.insert("concrete-nary");
+            }
+            for (w, x) in subs {
+                if *w == 0 {
+                    out.insert("zero-odds");
+                }
+                if (*w as u128) > u32::MAX as u128 {
+                    out.insert("odds-over-u32");
+                }
+                creasons(x, out);
+            }
+        }
+        C::Thresh(t) => {
+            for x in t.iter() {
+                creasons(x, out);
+            }
+        }
+        _ => {}
+    }
+}
+fn sreasons(p: &S, out: &mut std::collections::BTreeSet<&'static str>) {
+    match p {
+        S::Key(k) => {
+            if bad_str(k) {
+                out.insert("structural-key");
+            }
+        }
+        S::Sha256(h) | S::Hash256(h) | S::Ripemd160(h) | S::Hash160(h) => {
+            if bad_str(h) {
+                out.insert("structural-key");
+            }
+        }
+        S::Thresh(t) => {
+            if t.n() == 1 {
+                out.insert("semantic-1of1");
+            }
+            for x in t.iter() {
+                sreasons(x, out);
+            }
+        }
+        _ => {}
+    }
 }
 
 fn go(seed: u64, tier: &str) {
@@ -727,6 +799,7 @@ fn go(seed: u64, tier: &str) {
     let mut noreparse: Vec<String> = Vec::new();
     let mut nore_c = 0usize;
     let mut nore_s = 0usize;
+    let mut reasons: BTreeMap<String, (usize, String)> = Default::default();
     let mut cval_items: Vec<String> = Vec::new();
     let mut cval_eq = 0usize;
     let mut cval_display_panics = 0usize;
@@ -749,6 +822,14 @@ fn go(seed: u64, tier: &str) {
                 noreparse.push(format!("POLTEXTNOREPARSE conc {} {}", printed, lst(&obs[..obs.len().min(40)])));
             }
             nore_c += 1;
+            let mut rs = Default::default();
+            creasons(v, &mut rs);
+            let key = if rs.is_empty() { "unexplained".to_string() } else { rs.iter().cloned().collect::<Vec<_>>().join("+") };
+            let e = reasons.entry(format!("concrete {}", key)).or_insert((0usize, printed.clone()));
+            e.0 += 1;
+            if printed.len() < e.1.len() {
+                e.1 = printed.clone();
+            }
         }
         cval_items.push(format!("({}, {}, {})", cterm(v), coq_case(1, printed.as_bytes()), eq));
         cases.push((printed, "value-printed"));
@@ -775,6 +856,14 @@ fn go(seed: u64, tier: &str) {
                 noreparse.push(format!("POLTEXTNOREPARSE sem {} {}", printed, lst(&obs[..obs.len().min(40)])));
             }
             nore_s += 1;
+            let mut rs = Default::default();
+            sreasons(v, &mut rs);
+            let key = if rs.is_empty() { "unexplained".to_string() } else { rs.iter().cloned().collect::<Vec<_>>().join("+") };
+            let e = reasons.entry(format!("semantic {}", key)).or_insert((0usize, printed.clone()));
+            e.0 += 1;
+            if printed.len() < e.1.len() {
+                e.1 = printed.clone();
+            }
         }
         sval_items.push(format!("({}, {}, {})", sterm(v), coq_case(1, printed.as_bytes()), eq));
         cases.push((printed, "value-printed"));
@@ -832,6 +921,9 @@ fn go(seed: u64, tier: &str) {
     emit_chunks(&mut out, "poltext_cvals", "list (wpol * list int * bool)", &cval_items);
     emit_chunks(&mut out, "poltext_svals", "list (spol * list int * bool)", &sval_items);
     print!("{}", out);
+    for (k, (n, w)) in &reasons {
+        eprintln!("POLTEXTVALUE {} n={} witness={}", k, n, w);
+    }
     eprintln!(
         "POLTEXT cases={} cvals={} svals={} cval_reparse_equal={} sval_reparse_equal={} kinds={} conc_outcomes={} sem_outcomes={}",
         cases.len(),
